@@ -767,12 +767,44 @@ def k_fresh_run(run, case):
         env["MPLBACKEND"] = "Agg"
         env["PYTHONPATH"] = str(core.REPO) + os.pathsep + env.get("PYTHONPATH", "")
 
+        # how the configuration reaches -c: a regular file, a symbolic link to it, the standard
+        # input of the process (a pipe), or a named pipe fed by another writer
+        how = case.get("how") or ["file", "file", "symlink", "stdin", "fifo"][rng.integers(5)]
+
         def go(extra):
             argv = BASE_ARGV[tool] + ["--save_plot", "plot.png", "--no_warnings"] + extra
             if tool in ("ape", "rpe"):
                 argv += ["--save_results", "res.zip"]
+            feed, writer = None, None
+            if extra and how == "stdin":
+                argv[argv.index("cfg.json")] = "/dev/stdin"
+                feed = json.dumps(cfg)
+            elif extra and how == "symlink":
+                if not os.path.lexists(os.path.join(work, "cfg.link")):
+                    os.symlink("cfg.json", os.path.join(work, "cfg.link"))
+                argv[argv.index("cfg.json")] = "cfg.link"
+            elif extra and how == "fifo":
+                import threading
+                fifo = os.path.join(work, "cfg.fifo")
+                os.mkfifo(fifo)
+                argv[argv.index("cfg.json")] = "cfg.fifo"
+
+                def write_fifo():
+                    with open(fifo, "w") as f:  # blocks until a reader opens the pipe
+                        f.write(json.dumps(cfg))
+                writer = threading.Thread(target=write_fifo, daemon=True)
+                writer.start()
             p = subprocess.run([sys.executable, "-c", FRESH_DRIVER % {"tool": tool, "argv": argv}], cwd=work, env=env,
-                               capture_output=True, text=True, timeout=300)
+                               capture_output=True, text=True, timeout=300, input=feed)
+            if writer is not None:
+                if writer.is_alive():  # nobody opened the pipe: release the writer
+                    try:
+                        fd = os.open(os.path.join(work, "cfg.fifo"), os.O_RDONLY | os.O_NONBLOCK)
+                        writer.join(5)
+                        os.close(fd)
+                    except OSError:
+                        pass
+                os.remove(os.path.join(work, "cfg.fifo"))
             line = [l for l in p.stdout.splitlines() if l.startswith("VMON ")]
             obs = json.loads(line[-1][5:]) if line else None
             zp = os.path.join(work, "res.zip")
@@ -788,7 +820,7 @@ def k_fresh_run(run, case):
         stored = open(os.path.join(home, ".evo", "settings.json"), "rb").read()
         D = defaults()
         got, p1 = go(["-c", "cfg.json"])
-        run.seen(case, core.digest(tool, cfg), cls=["fresh process with -c: evo_" + tool] + ["-c key:" + k for k in cfg],
+        run.seen(case, core.digest(tool, cfg), cls=["fresh process with -c: evo_" + tool, "-c names a " + how] + ["-c key:" + k for k in cfg],
                  sample={"tool": tool, "config": cfg, "observed": got})
         if not run.check(got is not None and got["rc"] == 0, "run with -c succeeds", case,
                          "evo_%s -c cfg.json failed: %s" % (tool, p1.stderr[-300:]), key="fresh:-c-run-failed"):
@@ -843,8 +875,9 @@ def main(run):
         k_merge_config(run, run.case("merge_config", i))
     for i in run.mine({"quick": 16, "thorough": 200}[run.tier]):
         k_null_values(run, run.case("null_values", i, via=["soft_merge", "upgrade"][i % 2]))
-    for i in run.mine({"quick": 9, "thorough": 90}[run.tier]):
-        k_fresh_run(run, run.case("fresh_run", i, tool=["ape", "rpe", "traj"][i % 3]))
+    for i in run.mine({"quick": 12, "thorough": 96}[run.tier]):
+        k_fresh_run(run, run.case("fresh_run", i, tool=["ape", "rpe", "traj"][i % 3],
+                                  how=["file", "stdin", "fifo", "symlink"][(i // 3) % 4]))
     run.need("the run plots with the settings of the -c file", "set keeps the key set", "set changes only the named keys", "boolean parameter stays boolean",
              "list parameter stays a list", "numeric token stored as number",
              "reset(subset) restores exactly those keys", "reset -y restores all defaults",
